@@ -384,6 +384,10 @@ def check_case(case, col=None, logs=None):
                         result2['ok'] = True
                     except BaseException as e:      # noqa
                         result2['exc'] = e
+                try:
+                    termios.tcflush(us, termios.TCIFLUSH)       # keystrokes of the first session that were typed after its escape
+                except termios.error:
+                    pass
                 th2 = threading.Thread(target=run2, daemon=True)
                 th2.start()
                 t0 = time.time()
